@@ -82,6 +82,8 @@ def main(argv=None):
             run.add_obligations(obls)
         for fn in entry.get("extra", []):
             run.add_obligations(fn(e, run, args.tier))
+        from pyvc.verify import lemma_obligations
+        run.add_obligations(lemma_obligations(e))
         run.trust(*e.trusted)
         for c in reg.contracts.values():
             if c.assumed and c.qname in getattr(e, "used_assumed", set()):
